@@ -1,7 +1,7 @@
 /-
   `Inv3` (place of every task, futures, global tickets) is inductive — part B.
 -/
-import Babylon.Exec.Inv3
+import Babylon.Exec.Inv3X
 import Babylon.Exec.Inv2Pres
 
 namespace Babylon.Exec
@@ -13,16 +13,16 @@ macro "p_close" : tactic => `(tactic| (
   first
     | done
     | grind [upd, Pc.role, Pc.carry, Pc.exec, claimPc, dispatchPc, PopCtx.onEmpty, PopCtx.role, PopCtx.queue, afterLdRunS,
-        afterLdRunB, afterJoinW, role_chk, popctx_role,
+        afterLdRunB, afterJoinW, role_chk, popctx_role, Pc.pushed,
         Q.itemAt_setSt, Q.stAt_setSt, Q.itemAt_take, Q.stAt_take, Q.length_take, Q.length_setSt, Q.popIdx_setSt, Q.popIdx_take,
         Q.itemAt_claim, Q.stAt_claim, Q.popIdx_claim, Q.length_claim, Q.itemAt_bump, Q.stAt_bump, Q.popIdx_bump, Q.length_bump,
-        Item.isTask]))
+        Item.isTask, Q.itemAt_some_lt, Q.stAt_some_lt]))
 
 section
 variable {c : Cfg} {s s' : State} {t : Nat} {lb : Lbl}
 
 set_option maxHeartbeats 4000000 in
-theorem Inv3.step_a4 (I : Inv1 c s) (J : Inv2 c s) (K : Inv3 c s) (h : StepCase c s t lb s') :
+theorem Inv3.step_a4 (I : Inv1 c s) (J : Inv2 c s) (K : Inv3 c s) (X : Inv3X s) (h : StepCase c s t lb s') :
     ∀ id, s'.loc id = .fin ↔ s'.done id = true := by
   intro id
   have a4 := K.a4
@@ -48,7 +48,9 @@ theorem Inv3.step_a4 (I : Inv1 c s) (J : Inv2 c s) (K : Inv3 c s) (h : StepCase 
   have hx15 := role_afterSize c
   have hk : ∀ p k, s.pc t = .gPub p k → k.carry = none := by
     intro p k hp; rw [hp] at hwf; exact carry_cont c none k hwf
-  clear I J K hwf
+  have hb3c := b3c t
+  have hb3e := b3e t
+  clear I J K X hwf
   cases h
   case popClaim ctx i0 k0 nr cl hpc hq hi hcell hfull =>
     have hit := (isTask_iff cl.item).mp (l4 k0 i0 cl hcell)
@@ -79,7 +81,7 @@ theorem Inv3.step_a4 (I : Inv1 c s) (J : Inv2 c s) (K : Inv3 c s) (h : StepCase 
   all_goals (trace_state; sorry)
 
 set_option maxHeartbeats 4000000 in
-theorem Inv3.step_a5 (I : Inv1 c s) (J : Inv2 c s) (K : Inv3 c s) (h : StepCase c s t lb s') :
+theorem Inv3.step_a5 (I : Inv1 c s) (J : Inv2 c s) (K : Inv3 c s) (X : Inv3X s) (h : StepCase c s t lb s') :
     ∀ id, s'.loc id = .nowhere ↔ s'.known id = false := by
   intro id
   have a5 := K.a5
@@ -104,7 +106,9 @@ theorem Inv3.step_a5 (I : Inv1 c s) (J : Inv2 c s) (K : Inv3 c s) (h : StepCase 
   have hx15 := role_afterSize c
   have hk : ∀ p k, s.pc t = .gPub p k → k.carry = none := by
     intro p k hp; rw [hp] at hwf; exact carry_cont c none k hwf
-  clear I J K hwf
+  have hb3c := b3c t
+  have hb3e := b3e t
+  clear I J K X hwf
   cases h
   case popClaim ctx i0 k0 nr cl hpc hq hi hcell hfull =>
     have hit := (isTask_iff cl.item).mp (l4 k0 i0 cl hcell)
@@ -135,7 +139,7 @@ theorem Inv3.step_a5 (I : Inv1 c s) (J : Inv2 c s) (K : Inv3 c s) (h : StepCase 
   all_goals (trace_state; sorry)
 
 set_option maxHeartbeats 4000000 in
-theorem Inv3.step_a6 (I : Inv1 c s) (J : Inv2 c s) (K : Inv3 c s) (h : StepCase c s t lb s') :
+theorem Inv3.step_a6 (I : Inv1 c s) (J : Inv2 c s) (K : Inv3 c s) (X : Inv3X s) (h : StepCase c s t lb s') :
     ∀ t' a b, (s'.pc t').carry = some a → (s'.pc t').exec = some b → a ≠ b := by
   intro t' a b hcar hex
   have a6 := K.a6
@@ -161,7 +165,9 @@ theorem Inv3.step_a6 (I : Inv1 c s) (J : Inv2 c s) (K : Inv3 c s) (h : StepCase 
   have hx15 := role_afterSize c
   have hk : ∀ p k, s.pc t = .gPub p k → k.carry = none := by
     intro p k hp; rw [hp] at hwf; exact carry_cont c none k hwf
-  clear I J K hwf
+  have hb3c := b3c t
+  have hb3e := b3e t
+  clear I J K X hwf
   cases h
   case popClaim ctx i0 k0 nr cl hpc hq hi hcell hfull =>
     have hit := (isTask_iff cl.item).mp (l4 k0 i0 cl hcell)
